@@ -159,8 +159,10 @@ def gen_rig(rng, n, composed):
         Ms = []
         for c in range(ncand):
             r = rng.random()
-            if r < 0.35:
+            if r < 0.2:
                 M = homog(R0, t0)
+            elif r < 0.45:      # small shifts: usually the same consensus with another rmse (equal-size comparison)
+                M = homog(R0, t0 + rand_dir(rng, d) * sigma * rng.uniform(0, 0.3))
             elif r < 0.75:
                 M = homog(rot(rng, d, rng.gauss(0, 0.003)) @ R0, t0 + rand_dir(rng, d) * sigma * rng.uniform(0, 1.5))
             elif r < 0.85:
@@ -450,6 +452,8 @@ def oracle(case, out):
     if cmd == "est":
         npoints, sdraw, mininl = int(t[1]), int(t[2]), int(t[3])
         script = [(x.split(":")[0] == "1", int(x.split(":")[1])) for x in t[5:]]
+        if o[0] == "runaway":
+            return [("c06-estimate-iterations", "more than 200000 draws: the iteration bound does not stop the loop")]
         ok, draws, counts, refines, after, sig = [int(x) for x in o[:6]]
         if npoints < mininl:
             if ok or draws or counts or refines:
@@ -652,7 +656,7 @@ def nontrivial(case, out):
     if cmd == "it":
         return len(set(o)) >= 2 and case
     if cmd == "est":
-        return int(o[1]) >= 1 and case
+        return o[0] != "runaway" and int(o[1]) >= 1 and case
     if cmd == "rig":
         return " C " in out and case
     if cmd in ("icp", "icpd"):
